@@ -400,6 +400,7 @@ def oracle(ctx, deep=False, cal=False, only=None):
 
     res = Result()
     t_start = time.time()
+    c_start = time.process_time()
     rng = ctx.rng
     old_threads = numba.get_num_threads()
     numba.set_num_threads(max(1, min(old_threads, int(os.environ.get("VERIF_ORACLE_THREADS", "1")))))
@@ -422,8 +423,8 @@ def oracle(ctx, deep=False, cal=False, only=None):
     done = 0
     try:
         for (name, variant, top, extend) in plan:
-            if done >= 1 and time.time() - t_start > budget:
-                res.notes.append(f"time budget {budget:.0f}s reached after {done}/{len(plan)} meshes")
+            if done >= 1 and time.process_time() - c_start > budget:
+                res.notes.append(f"CPU-time budget {budget:.0f}s reached after {done}/{len(plan)} meshes")
                 break
             mesh = admissible_mesh(name, variant, rng)
             V, E = mesh["V"], mesh["E"]
@@ -543,6 +544,7 @@ def oracle(ctx, deep=False, cal=False, only=None):
     res.stats["edge_remap_cases_seen"] = len({(a, b) for (a, b, _, _) in edge_cov} | {(c_, d_) for (_, _, c_, d_) in edge_cov})
     res.stats["vertex_remap_cases_seen"] = len({a for (a, _) in vert_cov} | {b for (_, b) in vert_cov})
     res.stats["oracle_wall_s"] = round(time.time() - t_start, 1)
+    res.stats["oracle_cpu_s"] = round(time.process_time() - c_start, 1)
     return res
 
 
